@@ -11,7 +11,10 @@ CHECKS = {
         category='proof',
         text='ConversionOptions.__init__/as_tuple/__eq__/__hash__/uses/call_options are proved against sidecar '
              'contracts for symbolic field values (z3, all inputs); eq/hash/call-options lemmas are proved over '
-             'those contracts; the to_ast round trip is enumerated over the complete finite domain on the real code',
+             'those contracts; the embedding site (FunctionTransformer.visit_FunctionDef / visit_Lambda) is proved, as a trace '
+             'contract on every path, to hand the FunctionScope template to_ast() of the requested options (top-level scope) or '
+             'of their call_options() (nested scopes); the to_ast round trip is enumerated over the complete finite domain on '
+             'the real code; a bounded run-time evaluation of the embedded expressions supplements it',
         note='trusted: z3, the pvc VC generator, CPython ast.unparse/eval, value-based hash/eq of tuples, '
              'frozensets and enum members',
         technique=TECH + ' + exhaustive finite-domain enumeration',
